@@ -193,7 +193,7 @@ def _to_float(x, kind):
 
 
 def build_fgg(ag, kind='real', dtype=None, *, rule_order=None, implicit_ids=False, value_perm=None,
-              finite_domains=False, patterned=None, with_interp=True, use_rule_ids=False):
+              finite_domains=False, patterned=None, with_interp=True, use_rule_ids=False, fresh_labels=False):
     """Return (fgg, info) for the abstract grammar.  kind selects which weight table is used and
     how it is mapped to floats: real (w), log (ln w), mp (wmp, for the Viterbi semiring), bool.
     info['nodes'][ri] / info['edges'][ri] list the real Node/Edge objects of rule ri (AG order)."""
@@ -206,9 +206,30 @@ def build_fgg(ag, kind='real', dtype=None, *, rule_order=None, implicit_ids=Fals
     nl = {n: NodeLabel(n) for n in ag['nls']}
     el = {n: EdgeLabel(n, [nl[x] for x in d['type']], is_terminal=d['t'], is_nonterminal=not d['t'])
           for n, d in ag['els'].items()}
+    if fresh_labels:
+        # README style: every mention of a label is its own (equal, not identical) object, as with
+        # Graph.new_edge('X', ...) / fgg.new_rule('X', rhs); the label tables keep only one of them
+        class _Fresh(dict):
+            def __init__(self, make, names):
+                super().__init__()
+                self._make, self._names = make, set(names)
+            def __getitem__(self, n):
+                if n not in self._names:
+                    raise KeyError(n)
+                return self._make(n)
+        nl0 = nl
+        nl = _Fresh(lambda n: NodeLabel(n), ag['nls'])
+        el = _Fresh(lambda n: EdgeLabel(n, [NodeLabel(x) for x in ag['els'][n]['type']], is_terminal=ag['els'][n]['t'],
+                                        is_nonterminal=not ag['els'][n]['t']), ag['els'])
     g = FGG(el[ag['start']]) if with_interp else HRG(el[ag['start']])
-    for n in ag['elorder']:
-        g.add_edge_label(el[n])
+    if not fresh_labels:
+        for n in ag['elorder']:
+            g.add_edge_label(el[n])
+    else:
+        used = {e['lab'] for r in ag['rules'] for e in r['edges']} | {r['lhs'] for r in ag['rules']} | {ag['start']}
+        for n in ag['elorder']:
+            if n not in used:
+                g.add_edge_label(el[n])
     info = {'nodes': {}, 'edges': {}, 'rules': {}, 'el': el, 'nl': nl}
     order = rule_order if rule_order is not None else list(range(len(ag['rules'])))
     for ri in order:
@@ -256,6 +277,120 @@ def build_fgg(ag, kind='real', dtype=None, *, rule_order=None, implicit_ids=Fals
                 ten = patterned[t](ten)
             g.add_factor(el[t], FiniteFactor(doms, ten))
     return g, info
+
+
+def patternise(rng, a, p=0.8):
+    """Rewrite weight tables so that they FIT a sparsity pattern (a constant off the diagonal, or constant
+    along an axis); returns (a2, pat).  pattern_hooks(pat) then presents those same weights as PatternedTensors
+    (diagonal with that constant -- zero or not -- as default; stride-0 expanded)."""
+    import copy, itertools
+    a2 = copy.deepcopy(a)
+    pat = {}
+    for t in terms_of(a2):
+        sh = shape_of(a2, t)
+        typ = a2['els'][t]['type']
+        if rng.random() > p or not sh:
+            continue
+        opts = []
+        for i in range(len(sh)):
+            for j in range(i + 1, len(sh)):
+                if typ[i] == typ[j] and sh[i] >= 2:
+                    opts.append(('diag', i, j))
+        for k in range(len(sh)):
+            if sh[k] >= 2:
+                opts.append(('expand', k))
+        if not opts:
+            continue
+        o = rng.choice(opts)
+        cw, cm = rng.choice([(0, NINF), (1, 0), (2, -1), (1, 0), (3, 1)])
+        for flat, idx in enumerate(itertools.product(*[range(n) for n in sh])):
+            if o[0] == 'diag':
+                if idx[o[1]] != idx[o[2]]:
+                    a2['w'][t][flat], a2['wmp'][t][flat] = cw, cm
+            else:
+                src = list(idx)
+                src[o[1]] = 0
+                f0 = _flat(sh, src)
+                a2['w'][t][flat], a2['wmp'][t][flat] = a2['w'][t][f0], a2['wmp'][t][f0]
+        pat[t] = list(o)
+    return a2, pat
+
+
+def pattern_hooks(pat):
+    import torch
+    from fggs.indices import PatternedTensor, PhysicalAxis
+    hooks = {}
+    for t, o in pat.items():
+        if o[0] == 'diag':
+            def h(ten, i=o[1], j=o[2]):
+                axes = [PhysicalAxis(n) for n in ten.shape]
+                off = [0] * ten.ndim
+                off[j] = 1
+                default = ten[tuple(off)].item()
+                phys = ten.diagonal(dim1=i, dim2=j)           # the diagonal goes LAST in torch
+                paxes = [axes[k] for k in range(ten.ndim) if k not in (i, j)] + [axes[i]]
+                vaxes = list(axes)
+                vaxes[j] = axes[i]
+                return PatternedTensor(phys.clone(), tuple(paxes), tuple(vaxes), default)
+        else:
+            def h(ten, k=o[1]):
+                return PatternedTensor(ten.select(k, 0).clone()).unsqueeze(k).expand(*ten.shape)
+        hooks[t] = h
+    return hooks
+
+
+def gen_passthrough(rng):
+    """Non-recursive grammars whose rules pass nodes through: every node external, external order a permutation of
+    the attachment order, external nodes that no edge touches (the tensor is constant -- stride 0 -- along them),
+    children used with their nodes permuted.  The einsum of such a rule sums nothing out."""
+    sizes = rng.choice([(2, 2), (3, 3), (2, 3), (3, 2)])
+    nls = {'T': sizes[0], 'U': sizes[1]}
+    ar = rng.choice([2, 3, 3])
+    typX = [rng.choice('TU') for _ in range(ar)]
+    permS = list(range(ar))
+    rng.shuffle(permS)                       # S's i-th type = X's permS[i]-th
+    typS = [typX[k] for k in permS]
+    els = {'S': {'t': False, 'type': typS}, 'X': {'t': False, 'type': typX},
+           'a': {'t': True, 'type': ['T']}, 'b': {'t': True, 'type': ['U']}}
+    two_level = rng.random() < 0.5
+    if two_level:
+        els['R'] = {'t': False, 'type': []}
+    rules = []
+    # X -> all nodes external; unary factors on a random (possibly empty) subset
+    for _ in range(rng.randint(1, 2)):
+        perm = list(range(ar))
+        rng.shuffle(perm)                    # node order inside the rule
+        nodes = [typX[k] for k in perm]
+        ext = [perm.index(k) + 1 for k in range(ar)]
+        touched = [j for j in range(ar) if rng.random() < 0.3]
+        edges = [{'lab': 'a' if nodes[j] == 'T' else 'b', 'att': [j + 1]} for j in touched]
+        rules.append({'lhs': 'X', 'nodes': nodes, 'edges': edges, 'ext': ext})
+    # S -> X with nodes permuted, all external, plus optional unary factors
+    for _ in range(rng.randint(1, 2)):
+        nodes = list(typS)
+        att = [permS.index(k) + 1 for k in range(ar)]       # X's k-th attachment is S's node with permS[.] = k
+        edges = [{'lab': 'X', 'att': att}]
+        if rng.random() < 0.4:
+            j = rng.randrange(ar)
+            edges.append({'lab': 'a' if nodes[j] == 'T' else 'b', 'att': [j + 1]})
+        rng.shuffle(edges)
+        rules.append({'lhs': 'S', 'nodes': nodes, 'edges': edges, 'ext': list(range(1, ar + 1))})
+    start = 'S'
+    if two_level:
+        start = 'R'
+        nodes = list(typS)
+        edges = [{'lab': 'S', 'att': list(range(1, ar + 1))}] + [{'lab': 'a' if l == 'T' else 'b', 'att': [j + 1]} for j, l in enumerate(nodes) if rng.random() < 0.5]
+        rules.append({'lhs': 'R', 'nodes': nodes, 'edges': edges, 'ext': []})
+    used = {e['lab'] for r in rules for e in r['edges']}
+    for t in ('a', 'b'):
+        if t not in used:
+            del els[t]
+    elorder = list(els)
+    rng.shuffle(elorder)
+    rng.shuffle(rules)
+    w = {t: [rng.choice(PRIMES[:4]) for _ in range(nls[els[t]['type'][0]])] for t in ('a', 'b') if t in els}
+    wmp = {t: [rng.randint(-3, 3) for _ in range(nls[els[t]['type'][0]])] for t in ('a', 'b') if t in els}
+    return {'nls': nls, 'els': els, 'elorder': elorder, 'start': start, 'rules': rules, 'w': w, 'wmp': wmp}
 
 
 def build_incremental(ag, on_step, with_start_first=True):
